@@ -219,6 +219,40 @@ def run(ctx):
         else:
           ctx.verdict(good, rule, rule + ':player-one-payoff', 'the payoff kept per outcome is player one\'s (element 0 of the pair)', gi.where(0), 'found map closure returning (id, pair[0]): %s' % good,
                     breaks='the game is solved with player two\'s payoffs')
+    # an infoset is printed under the name the file gives it on *any* of its nodes (Gambit lets the label be written on
+    # one node of an infoset and omitted on the others): the first-wins entry of the name table is filled only on the edge
+    # where this node's infoset_name() is Some — an entry created from a node that omits the label
+    # (`entry(infoset).or_insert_with(|| node.infoset_name().map(..))`) shuts out the label a later node spells
+    rule = 'C15.infoset-name'
+    if gi is not None:
+        n_sites = 0
+        for bi, t, p in gi.calls():
+            if short(p) not in ('or_insert_with', 'or_insert', 'insert', 'or_insert_with_key') or 'HashSet' in p:
+                continue
+            e = gi.call_expr(t, bi)
+            keyed = any(q.find_sub(a, lambda s: q.is_call(s, 'infoset')) is not None for a in e[2][:2])
+            if not keyed:
+                continue
+            guarded = any(c['kind'] == 'variant' and c['variants'] == ['Some'] and q.find_sub(c['a'], lambda s: q.is_call(s, 'infoset_name')) is not None for c in gi.conds(bi))
+            val_names = False
+            for a in e[2][1:]:
+                cf, _agg = q.closure_of(b, a)
+                if cf is not None:
+                    ctx.touch(cf)
+                    val_names |= q.find_sub(q.ret_expr(cf), lambda s: q.is_call(s, 'infoset_name')) is not None
+                val_names |= q.find_sub(a, lambda s: q.is_call(s, 'infoset_name')) is not None
+            if not (guarded or val_names):
+                continue        # another table keyed by the infoset (not the names)
+            if not guarded and short(p).startswith('or_insert') and not t['dest']['p'] and q.local_uses(gi, t['dest']['l']):
+                ctx.anchor_lost(rule, 'get_global_info: first-wins insert of the name', '(the slot or_insert* returns is used afterwards: whether a later label fills it is not decided)')
+                n_sites += 1
+                continue
+            n_sites += 1
+            ctx.verdict(guarded, rule, rule + ':first-wins-only-when-named', 'the name table\'s entry for an infoset is created only from a node that spells the label (on the Some edge of infoset_name())',
+                        gi.where(bi), 'entry keyed by infoset(), on the Some edge of infoset_name(): %s' % guarded,
+                        breaks='an infoset labelled on one node and left unlabelled on the node visited first is printed under its number instead of its name')
+        if not n_sites:
+            ctx.anchor_lost(rule, 'get_global_info: the insert that records an infoset\'s name')
     # player number mapping
     rule = 'C15.player-mapping'
     if g is not None:
